@@ -180,6 +180,8 @@ Proof.
   - (* tuple *) unfold tuple_body.
     destruct (load rt x) as [d|e| |]; cbn [bind done] in *; try discriminate Hd; try apply ev_const.
     destruct (itervalues rt d) as [vs|e| |]; cbn [bind done] in *; try discriminate Hd; try apply ev_const.
+    match goal with H : Forall2 _ rs ts |- _ => rewrite <- (Forall2_length _ _ _ H) end.
+    destruct (Nat.ltb (length vs) (length rs)); [apply ev_const|].
     apply ev_bind; [|intros out _; apply ev_const|exact Hd].
     assert (Hdm : done (mapM (fun rv => runu n (fst rv) (snd rv)) (zip_trunc rs vs)) = true).
     { destruct (bind_done _ _ Hd) as [[o [Ho _]]|[e He]]; [rewrite Ho|rewrite He]; reflexivity. }
